@@ -218,3 +218,31 @@ def skip_real(k0: int, k1: int, k2: int, p0: int, p1: int, p2: int) -> bool:
     with H.patched((T, "logger", log1)):
         got = InstrumentTrack.from_chart_lines(Instrument.GUITAR, Difficulty.EXPERT, lines, be)
     return done(got == ref and len(log0.warnings) == 0 and len(log1.warnings) == n_ins)
+
+
+# ---------------------------------------------------------------------------------------------
+# track-event words of unusual shapes through the real recogniser (round 7)
+# ---------------------------------------------------------------------------------------------
+E_WORDS = ["", '"', '""', '"a', 'a"', "0", "007", 'a"b', "é", "-1", "[x]", "=", "E", "　x"]
+
+
+def e_word_forms(k: int, pad: bool) -> bool:
+    """
+    pre: 0 <= k < len(E_WORDS)
+    post: _
+    """
+    # '<tick> = E <word>' with words of unusual shapes (empty, quotes only, digits only, brackets ...):
+    # decoded verbatim as a string, through the line decoder and through the whole track parser
+    import chartparse.instrument as I_
+    from chartparse.sync import BPMEvent, BPMEvents
+    from datetime import timedelta as _td
+    w = H.pick(E_WORDS, k)
+    line = ("   " if pad else "") + "288 = E " + w
+    with H.untraced():
+        d = I_.TrackEvent.ParsedData.from_chart_line(line)
+        ok = d.tick == 288 and isinstance(d.value, str) and d.value == w
+        be = BPMEvents(events=[BPMEvent(tick=0, timestamp=_td(0), bpm=120.0)], resolution=192)
+        tr = I_.InstrumentTrack.from_chart_lines(I_.Instrument.GUITAR, I_.Difficulty.EXPERT, iter(["  0 = N 0 0", line, "  300 = N 1 0"]), be)
+        ok = ok and len(tr.track_events) == 1 and tr.track_events[0].value == w and len(tr.note_events) == 2
+        ok = ok and isinstance(str(tr.track_events[0]), str) and isinstance(repr(tr.track_events[0]), str)
+    return done(ok)
